@@ -14,12 +14,13 @@ def prbs_seq(n, state=1):
 
 class C18(Prop):
     pid = "C18"
-    lean_targets = ["M17.Props.C18", "M17.Props.C18B"]
-    theorems = ["M17.C18.gen_consts", "M17.C18.period_511", "M17.C18.nine_bits_determine", "M17.C18.locks_within_27",
+    lean_targets = ["M17.Props.C18", "M17.Props.C18B", "M17.Props.C18P"]
+    theorems = ["M17.C18.gen_consts", "M17.C18.period_511", "M17.C18P.genState_periods", "M17.C18P.genBits_periods", "M17.C18P.ones_periods",
+                "M17.C18P.return_511_any_phase", "M17.C18P.bit_periodic", "M17.C18.nine_bits_determine", "M17.C18.locks_within_27",
                 "M17.C18.locked_step", "M17.C18.exact_count", "M17.C18.unlock_at_25", "M17.C18.inv_at_lock",
                 "M17.C18B.getBit_pack", "M17.C18B.counts_at_lock", "M17.C18B.clean_run", "M17.C18B.rx_is_run", "M17.C18B.bert_end_to_end"]
     level_text = ("Lean 4 theorems about the modelled PRBS9 object: the generator from the reset state has period exactly 511 with 256 ones "
-                  "(kernel evaluation of the whole orbit); a validator with run counter 0 and ANY register content, fed any phase, locks at some "
+                  "(kernel evaluation of the whole orbit), and — by induction (C18P) — is 511-periodic for ever: every output index repeats the bit 511 earlier, k periods are k copies of one period with exactly 256k ones, from every phase of the orbit; a validator with run counter 0 and ANY register content, fed any phase, locks at some "
                   "bit 18..27 with its register equal to the generator's and not earlier (nine shifted-in bits determine the register; "
                   "counter induction); after lock, for every error pattern whose every 128-bit window has fewer than 25 errors the validator "
                   "stays locked and err/bit counters grow by exactly the errors / bits seen (sliding-window invariant over the 128-bit "
